@@ -1,5 +1,6 @@
 import GateryModel.C15.Lemmas
 import GateryModel.C15.Gray
+import GateryModel.C15.ArrayLemmas
 /-!
 # C15 — property theorems: the library FIFO is a loss-free, duplicate-free, order-preserving queue
 
@@ -206,6 +207,70 @@ theorem gray_roundtrip_inv (v : Gray.Bits) :
   · rw [Gray.grayEncode_eq]; exact Gray.encode_decode_from false v
   · rw [Gray.grayEncode_eq]; exact Gray.length_encodeFrom false v
 
+/-- **FifoArray refines `2^kf` independent queues** (model `C15/Array.lean` of scl/FifoArray.h): for every number of
+FIFOs `2^kf`, depth `2^k`, payload type, and every schedule of requests and selectors `es` (push and pop selector
+arbitrary and independent in every cycle), each FIFO `i` for itself is a loss-free, duplicate-free, order-preserving
+queue of capacity `N`: what it has yielded is the prefix of what it has accepted, and it never holds more than `N`. -/
+theorem array_refines_queues (kf k : Nat) (x : α) (es : List (AEv α)) (i : Nat) (hi : i < 2 ^ kf) :
+    let tr := arrTrace (cfg1 k) x (arrInit kf (cfg1 k) x) es
+    yieldedAt i tr = (acceptedAt i tr).take (yieldedAt i tr).length ∧
+    (yieldedAt i tr).length ≤ (acceptedAt i tr).length ∧
+    (acceptedAt i tr).length ≤ (yieldedAt i tr).length + (cfg1 k).N := by
+  intro tr
+  obtain ⟨h1, h2, _⟩ := arr_traces (cfg1 k) (Nat.le_refl 1) (2 ^ kf) x es _ _ (arrRel_init kf (cfg1 k) (Nat.le_refl 1) (Nat.le_refl 1) x) i hi
+  have hw := wf_proj (α := α) k i es
+  have hq := queue_refinement (cfg1 k) x _ hw
+  have hb := occupancy_bounds (cfg1 k) x _ hw
+  simp only [tr, h1, h2]
+  exact ⟨hq, hb.1, hb.2⟩
+
+/-- **FifoArray flags are exact for the SELECTED queue** in the cycle `e` that follows any schedule `es`:
+`full` is on when the FIFO addressed by the push selector holds `N` items (so the push is refused), `empty` is on
+when the FIFO addressed by the pop selector holds none (so nothing is yielded), `empty` is off as soon as it holds
+one (latency 0), and while `empty` is off `peek` is the oldest item that FIFO still holds. -/
+theorem array_flags_selected (kf k : Nat) (x : α) (es : List (AEv α)) (e : AEv α)
+    (hp : e.pushSel < 2 ^ kf) (hq : e.popSel < 2 ^ kf) :
+    let c := cfg1 k
+    let tr := arrTrace c x (arrInit kf c x) es
+    let o := arrOutputs c x (arrRun c (arrInit kf c x) es) e
+    ((acceptedAt e.pushSel tr).length - (yieldedAt e.pushSel tr).length = c.N → o.full = true) ∧
+    ((acceptedAt e.popSel tr).length - (yieldedAt e.popSel tr).length = 0 → o.empty = true) ∧
+    (0 < (acceptedAt e.popSel tr).length - (yieldedAt e.popSel tr).length → o.empty = false) ∧
+    (o.empty = false → ((acceptedAt e.popSel tr).drop (yieldedAt e.popSel tr).length).head? = some o.peek) := by
+  intro c tr o
+  have hinit := arrRel_init kf c (Nat.le_refl 1) (Nat.le_refl 1) x
+  obtain ⟨hp1, hp2, hrel⟩ := arr_traces c (Nat.le_refl 1) (2 ^ kf) x es _ _ hinit e.pushSel hp
+  obtain ⟨hq1, hq2, _⟩ := arr_traces c (Nat.le_refl 1) (2 ^ kf) x es _ _ hinit e.popSel hq
+  obtain ⟨ho1, ho2⟩ := arrOutputs_eq c (2 ^ kf) x _ _ e hrel
+  have hwp := wf_proj (α := α) k e.pushSel es
+  have hwq := wf_proj (α := α) k e.popSel es
+  obtain ⟨hoe, hop⟩ := ho2 hq
+  refine ⟨?_, ?_, ?_, ?_⟩
+  · intro h
+    show o.full = true
+    rw [show o.full = _ from ho1 hp]
+    exact (full_of_holding_capacity c x _ hwp (by unfold fill; rw [← hp1, ← hp2]; exact h)).1
+  · intro h
+    show o.empty = true
+    rw [show o.empty = _ from hoe]
+    exact (empty_of_holding_none c x _ hwq (by unfold fill; rw [← hq1, ← hq2]; exact h)).1
+  · intro h
+    show o.empty = false
+    rw [show o.empty = _ from hoe]
+    have hl := liveness c x (es.map (projEv e.popSel)) [] hwq (fun _ h => nomatch h) (Nat.zero_le _)
+    simp only [List.append_nil] at hl
+    rcases hl with hl | hl
+    · rw [← hq1, ← hq2] at hl
+      have h' : 0 < (acceptedAt e.popSel (arrTrace c x (arrInit kf c x) es)).length -
+          (yieldedAt e.popSel (arrTrace c x (arrInit kf c x) es)).length := h
+      omega
+    · exact hl.1
+  · intro h
+    have hpk := peek_is_head c x _ hwq (by rw [← hoe]; exact h)
+    unfold queue at hpk
+    rw [← hq1, ← hq2] at hpk
+    rw [hpk]; exact congrArg some hop.symm
+
 /-! ### non-vacuity -/
 
 private def ev (pc qc push : Bool) (d : Nat) (pop : Bool) : Ev Nat :=
@@ -241,5 +306,13 @@ example : Gray.grayEncode [true, false, false, false, false, false, false, false
           [true, true, false, false, false, false, false, false, false] ∧
           Gray.grayDecode [true, true, false, false, false, false, false, false, false] =
           [true, false, false, false, false, false, false, false, false] := by decide
+
+-- FifoArray, 2 FIFOs of depth 2: two items into FIFO 1, pop one of them, fill FIFO 0 while the pop selector rests on FIFO 1
+private def aev (push : Bool) (ps d : Nat) (pop : Bool) (qs : Nat) : AEv Nat := { push := push, pushSel := ps, data := d, pop := pop, popSel := qs }
+private def demoArr : List (AEv Nat) :=
+  [aev true 1 11 false 0, aev true 1 12 false 0, aev false 0 0 true 1, aev true 0 21 false 1, aev true 0 22 false 1, aev true 0 23 false 1]
+example : acceptedAt 0 (arrTrace (cfg1 1) 0 (arrInit 1 (cfg1 1) 0) demoArr) = [21, 22] ∧
+          acceptedAt 1 (arrTrace (cfg1 1) 0 (arrInit 1 (cfg1 1) 0) demoArr) = [11, 12] ∧
+          yieldedAt 1 (arrTrace (cfg1 1) 0 (arrInit 1 (cfg1 1) 0) demoArr) = [11] := by decide
 
 end Gatery.C15.Props
